@@ -442,6 +442,19 @@ async def _consume(api, world, name, token, h, consume, out):
             out["body"] = b"".join(chunks)
             if isinstance(consume, dict) and consume.get("slow"):
                 await api.sleep(consume["slow"])
+        if isinstance(consume, dict) and consume.get("close_pool_midway"):
+            # the pool is closed under the open response (a shutdown hook, another part
+            # of the program); the caller goes on iterating the body
+            await api.close_pool()
+            try:
+                for _ in range(consume.get("more", 2)):
+                    if await api.next_chunk(h) is None:
+                        break
+                out["after_close"] = None
+            except SimAbort:
+                raise
+            except Exception as e:   # noqa: BLE001
+                out["after_close"] = exc_record(e)
         if isinstance(consume, dict) and consume.get("then"):
             # having stopped part-way, the caller asks for the body a second time
             try:
